@@ -585,7 +585,7 @@ func (tx *Transaction) HashForSignature(
 	}
 
 	// SIGHASH_ANYONECANPAY: ignore inputs entirely
-	if (hashType & txscript.SigHashAnyOneCanPay) == 1 {
+	if (hashType & txscript.SigHashAnyOneCanPay) != 0 {
 		input := TxInput{
 			Hash:                txCopy.Inputs[inIndex].Hash,
 			Index:               txCopy.Inputs[inIndex].Index,
